@@ -133,12 +133,16 @@ spec fn aval(e: u32) -> u8 { (e >> 26) as u8 }
 spec fn apack(slot: u32, value: u8) -> u32 { ((value as u32) << 26) | (slot & 0x3ffffff) }
 
 fn get_slot ( coupon : u32 ) -> ( r : u32 ) ensures r == aslot ( coupon ) {
+proof {
+assert ( coupon & 0x3ffffff == coupon % 0x4000000 && coupon & 0x3ffffff == 0x3ffffff & coupon ) by ( bit_vector ) ;
+}
 coupon & KEY_MASK_26 }
 
 
 fn get_value ( coupon : u32 ) -> ( r : u8 ) ensures r == aval ( coupon ) {
 proof {
 assert ( ( coupon >> 26 ) <= 63 ) by ( bit_vector ) ;
+assert ( coupon >> 26 == coupon / 0x4000000 && ( 1u32 << 26 ) == 0x4000000 ) by ( bit_vector ) ;
 }
 ( coupon >> KEY_BITS_26 ) as u8 }
 
@@ -360,6 +364,9 @@ assert ( r0 [ k ] == entry ) ;
 assert ( self . rest ( ) == r0 . skip ( k + 1 ) ) ;
 lemma_iter_some ( r0 , k ) ;
 lemma_mask_id ( aslot ( entry ) , self . config_k_mask ) ;
+let cm_x = aslot ( entry ) ;
+let cm_m = self . config_k_mask ;
+assert ( cm_x & cm_m == cm_m & cm_x ) by ( bit_vector ) ;
 assert forall | i : int | 0 <= i < self . rest ( ) . len ( ) && self . rest ( ) [ i ] != 0 implies aslot ( # [ trigger ] self . rest ( ) [ i ] ) <= self . config_k_mask by {
 assert ( self . rest ( ) [ i ] == r0 [ i + k + 1 ] ) ;
 }
@@ -408,6 +415,8 @@ entries : self . entries . into_vec ( ) . into_iter ( ) , config_k_mask : ( 1 <<
         &&& self.count < self.entries@.len()
     }
 
+    #[verifier::loop_isolation(false)]
+    #[verifier::allow_complex_invariants]
     fn find ( & self , slot : u32 ) -> ( r : FindResult ) requires self . wf ( ) , slot < pow2 ( self . lg_config_k as nat ) ensures /*@C02.aux_find*/ match r {
 FindResult :: Found ( idx ) => idx < self . entries @ . len ( ) && self . entries @ [ idx as int ] != 0 && aslot ( self . entries @ [ idx as int ] ) == slot , FindResult :: Empty ( idx ) => idx < self . entries @ . len ( ) && self . entries @ [ idx as int ] == 0 && ! ahas ( self . entries @ , slot ) && exists | j : int | 0 <= j < self . entries @ . len ( ) && idx == probe_at ( ahome ( slot , self . entries @ . len ( ) as int ) , astride ( slot , self . lg_size ) , j , self . entries @ . len ( ) as int ) && # [ trigger ] apath_clear ( self . entries @ , slot , self . lg_size , j ) , }
 {
@@ -665,6 +674,8 @@ lemma_small_mod ( p0 as nat , nsz as nat ) ;
 }
 lemma_grow_fresh ( es , ne0 , old ( self ) . lg_size , lgk , vx_i1 as int ) ;
 }
+#[verifier::loop_isolation(false)]
+#[verifier::allow_complex_invariants]
 loop invariant_except_break new_entries @ == ne0 , invariant nsz == pow2 ( new_lg_size as nat ) , nsz == ne0 . len ( ) , nsz <= 0x400_0000 , new_lg_size <= 25 , nsz == new_entries @ . len ( ) , new_mask == nsz - 1 , new_mask == ( ( 1u32 << new_lg_size ) - 1 ) as u32 , slot < 0x20_0000 , slot == aslot ( entry ) , s == astride ( slot , new_lg_size ) , s % 2 == 1 , 0 < s < 0x20_0001 , p0 == start_position , 0 <= p0 < nsz , p0 == ahome ( slot , nsz ) , 0 <= j < nsz , probe == probe_at ( p0 , s , j , nsz ) , 0 <= probe < nsz , forall | p : int | visited . contains ( p ) <==> exists | i : int | 0 <= i < j && p == probe_at ( p0 , s , i , nsz ) , visited . len ( ) == j , visited . subset_of ( aocc ( ne0 ) ) , aocc ( ne0 ) . len ( ) < nsz , azero_free ( ne0 , slot , new_lg_size , j ) , ensures exists | idx : int , jj : int | 0 <= idx < nsz && 0 <= jj < nsz && ne0 [ idx ] == 0 && idx == probe_at ( ahome ( slot , nsz ) , astride ( slot , new_lg_size ) , jj , nsz ) && # [ trigger ] azero_free ( ne0 , slot , new_lg_size , jj ) && new_entries @ == # [ trigger ] ne0 . update ( idx , entry ) , decreases nsz - j {
 if new_entries [ probe as usize ] == ENTRY_EMPTY {
 new_entries [ probe as usize ] = entry ;
